@@ -10,7 +10,9 @@ package main
 // with no-failing-input-found and the replay file carries the model.
 
 import (
+	"context"
 	"fmt"
+	"sort"
 	"os"
 	"os/exec"
 	"path/filepath"
@@ -225,3 +227,975 @@ func runReplayTest(src, obName string) map[string]any {
 	return map[string]any{"test": src, "output": o, "confirmed": confirmed,
 		"how": "in-package test injected with go test -overlay; calls the real function with the model's inputs and checks the clause with an independent Go oracle"}
 }
+
+// ---------------------------------------------------------------------------
+// Replay of node-level counterexamples (layer B). The solver's model of a refuted obligation of
+// an inner-node operation is read back as a concrete node (class, fan-out, key bytes, child
+// slots) plus the call's arguments; an injected in-package test builds that node from real
+// node4/16/48/256 values, runs the REAL operation on it and compares the byte->child table
+// before and after with what an ordered table must do (add: old + {b:child}; delete: old - {b};
+// find: old[b]) and re-checks the class representation invariant, all with a naive oracle
+// written here in Go, independent of the contracts. A model that is not a valid node (the
+// oracle's own invariant check fails before the call) is not a witness: the test is skipped and
+// the violation keeps its no-failing-input-found suffix.
+
+var nodeFnRe = regexp.MustCompile(`^\(\*(node4|node16|node48|node256|nodeRef)\)\.(addChild|deleteChild|findChild)$`)
+
+func tryReplayNode(o *Obligation, query string) map[string]any {
+	m := nodeFnRe.FindStringSubmatch(o.Func)
+	if m == nil {
+		return nil
+	}
+	weakened := false
+	if o.Result != "sat" {
+		// no model from the verifier
+		return witnessSearchNode(o)
+	}
+	if false {
+		query = modelQuery(query)
+		weakened = true
+		if d := os.Getenv("GOVC_DUMP_WEAK"); d != "" {
+			os.WriteFile(d, []byte(query), 0o644)
+		}
+	}
+	recv, op := m[1], m[2]
+	decl := func(prefix string) string {
+		re := regexp.MustCompile(`\(declare-fun (` + regexp.QuoteMeta(prefix) + `![0-9]+) \(\)`)
+		if mm := re.FindStringSubmatch(query); mm != nil {
+			return mm[1]
+		}
+		return ""
+	}
+	has := func(sym string) bool { return strings.Contains(query, "(declare-fun "+sym+" ()") }
+	var nodeT, tagT string
+	if recv == "nodeRef" {
+		obj, idx := decl("p.ptr.obj"), decl("p.ptr.idx")
+		if obj == "" {
+			obj, idx = decl("p.ref.obj"), decl("p.ref.idx")
+		}
+		if obj == "" || idx == "" || !has("H.SP") || !has("H.ST") {
+			return nil
+		}
+		nodeT = fmt.Sprintf("(select (select H.SP %s) %s)", obj, idx)
+		tagT = fmt.Sprintf("(select (select H.ST %s) %s)", obj, idx)
+	} else {
+		nodeT = decl("p.n" + strings.TrimPrefix(recv, "node"))
+		if nodeT == "" {
+			return nil
+		}
+		tagT = map[string]string{"node4": "0", "node16": "1", "node48": "2", "node256": "3"}[recv]
+	}
+	var terms []string
+	add := func(t string) { terms = append(terms, t) }
+	add("null")
+	add(nodeT)
+	add(tagT)
+	if b := decl("p.b"); b != "" {
+		add(b)
+	} else {
+		add("0")
+	}
+	if cp, ct := decl("p.child.pointer"), decl("p.child.tag"); cp != "" && ct != "" {
+		add(cp)
+		add(ct)
+	} else {
+		add("null")
+		add("0")
+	}
+	for _, h := range []string{"H.node.childrenLen", "H.node.prefixLen", "H.node4.keys"} {
+		if has(h) {
+			add(fmt.Sprintf("(select %s %s)", h, nodeT))
+		} else {
+			add("0")
+		}
+	}
+	for i := 0; i < 256; i++ {
+		if has("H.B") {
+			add(fmt.Sprintf("(select (select H.B %s) %d)", nodeT, i))
+		} else {
+			add("0")
+		}
+	}
+	for i := 0; i < 256; i++ {
+		if has("H.SP") && has("H.ST") {
+			add(fmt.Sprintf("(select (select H.SP %s) %d)", nodeT, i))
+			add(fmt.Sprintf("(select (select H.ST %s) %d)", nodeT, i))
+		} else {
+			add("null")
+			add("0")
+		}
+	}
+	// one get-value per term keeps the answer easy to parse
+	q := "(set-option :produce-models true)\n" + strings.Replace(query, "(check-sat)\n", "", 1) + "(check-sat)\n"
+	for _, t := range terms {
+		q += "(get-value (" + t + "))\n"
+	}
+	res, out, _ := runSolver(context.Background(), "z3-new", q, 60*time.Second, false)
+	if res != "sat" {
+		return nil
+	}
+	lines := strings.Split(strings.TrimSpace(out), "\n")
+	var vals []string
+	cur := ""
+	depth := 0
+	for _, l := range lines[1:] {
+		cur += l
+		depth += strings.Count(l, "(") - strings.Count(l, ")")
+		if depth == 0 && cur != "" {
+			// ((term value))
+			inner := strings.TrimSpace(cur)
+			inner = strings.TrimSuffix(strings.TrimPrefix(inner, "(("), "))")
+			// the value is the last s-expression
+			vals = append(vals, lastSexp(inner))
+			cur = ""
+		}
+	}
+	if len(vals) != len(terms) {
+		return nil
+	}
+	num := func(s string) int64 {
+		s = strings.TrimSpace(s)
+		neg := false
+		if strings.HasPrefix(s, "(-") {
+			neg = true
+			s = strings.TrimSpace(strings.TrimSuffix(strings.TrimPrefix(s, "(-"), ")"))
+		}
+		v, _ := strconv.ParseInt(s, 10, 64)
+		if neg {
+			v = -v
+		}
+		return v
+	}
+	null := vals[0]
+	ids := map[string]int{null: 0}
+	id := func(v string) int {
+		if n, ok := ids[v]; ok {
+			return n
+		}
+		ids[v] = len(ids)
+		return ids[v]
+	}
+	if vals[1] == null {
+		return nil
+	}
+	tag := num(vals[2])
+	b := num(vals[3]) & 0xff
+	childID, childTag := id(vals[4]), num(vals[5])&0xff
+	clen, plen, keys4 := num(vals[6])&0xff, num(vals[7])&0xffffffff, num(vals[8])&0xffffffff
+	var keys, slots []string
+	for i := 0; i < 256; i++ {
+		keys = append(keys, strconv.FormatInt(num(vals[9+i])&0xff, 10))
+	}
+	for i := 0; i < 256; i++ {
+		slots = append(slots, fmt.Sprintf("{%d, %d}", id(vals[9+256+2*i]), num(vals[9+256+2*i+1])&0xff))
+	}
+	if tag < 0 || tag > 3 {
+		return nil
+	}
+	src := fmt.Sprintf(nodeReplayTemplate, tag, clen, plen, keys4, strings.Join(keys, ", "), strings.Join(slots, ", "), b, childID, childTag, op)
+	rr := runReplayTest(src, o.Name)
+	if weakened {
+		rr["how"] = "candidate input taken from a model of the quantifier-free weakening of the refuted obligation (bounded quantifiers expanded, goal skolemised, unexpandable assumptions dropped), validated by the test's own well-formedness check; " + rr["how"].(string)
+	}
+	return rr
+}
+
+func lastSexp(s string) string {
+	s = strings.TrimSpace(s)
+	if strings.HasSuffix(s, ")") {
+		depth := 0
+		for i := len(s) - 1; i >= 0; i-- {
+			switch s[i] {
+			case ')':
+				depth++
+			case '(':
+				depth--
+				if depth == 0 {
+					return s[i:]
+				}
+			}
+		}
+		return s
+	}
+	i := strings.LastIndexAny(s, " \t")
+	return s[i+1:]
+}
+
+const nodeReplayTemplate = `package art
+
+import (
+	"fmt"
+	"testing"
+	"unsafe"
+)
+
+type vrSlot struct {
+	id  int
+	tag nodeKind
+}
+
+var (
+	vrTag     = nodeKind(%d)
+	vrLen     = uint8(%d)
+	vrPrefix  = uint32(%d)
+	vrKeys4   = uint32(%d)
+	vrKeys    = [256]byte{%s}
+	vrSlots   = [256]vrSlot{%s}
+	vrB       = byte(%d)
+	vrChild   = vrSlot{%d, nodeKind(%d)}
+	vrOp      = %q
+	vrObjects = map[int]unsafe.Pointer{}
+)
+
+func vrRef(s vrSlot) nodeRef {
+	if s.id == 0 {
+		return nodeRef{tag: s.tag}
+	}
+	p, ok := vrObjects[s.id]
+	if !ok {
+		switch s.tag {
+		case nodeKind4:
+			p = unsafe.Pointer(&node4{})
+		case nodeKind16:
+			p = unsafe.Pointer(&node16{})
+		case nodeKind48:
+			p = unsafe.Pointer(&node48{})
+		case nodeKind256:
+			p = unsafe.Pointer(&node256{})
+		default:
+			p = unsafe.Pointer(&alphaLeafNode[int]{})
+		}
+		vrObjects[s.id] = p
+	}
+	return nodeRef{pointer: p, tag: s.tag}
+}
+
+// vrView: the byte->child table a node represents, read naively from its representation, and
+// whether the representation is well formed.
+func vrView(r nodeRef) (map[byte]nodeRef, error) {
+	m := map[byte]nodeRef{}
+	switch r.tag {
+	case nodeKind4:
+		n := (*node4)(r.pointer)
+		if n.childrenLen > 4 {
+			return nil, fmt.Errorf("node4 with childrenLen %%d", n.childrenLen)
+		}
+		for i := 0; i < int(n.childrenLen); i++ {
+			k := byte(n.keys >> (8 * i))
+			if i > 0 && byte(n.keys>>(8*(i-1))) >= k {
+				return nil, fmt.Errorf("node4 keys not strictly ascending at %%d: %%#x", i, n.keys)
+			}
+			if n.children[i].pointer == nil {
+				return nil, fmt.Errorf("node4 child %%d is nil", i)
+			}
+			m[k] = n.children[i]
+		}
+	case nodeKind16:
+		n := (*node16)(r.pointer)
+		if n.childrenLen > 16 {
+			return nil, fmt.Errorf("node16 with childrenLen %%d", n.childrenLen)
+		}
+		for i := 0; i < int(n.childrenLen); i++ {
+			if i > 0 && n.keys[i-1] >= n.keys[i] {
+				return nil, fmt.Errorf("node16 keys not strictly ascending at %%d: %%v", i, n.keys)
+			}
+			if n.children[i].pointer == nil {
+				return nil, fmt.Errorf("node16 child %%d is nil", i)
+			}
+			m[n.keys[i]] = n.children[i]
+		}
+	case nodeKind48:
+		n := (*node48)(r.pointer)
+		used := map[byte]bool{}
+		for b := 0; b < 256; b++ {
+			idx := n.keys[b]
+			if idx == 0 {
+				continue
+			}
+			if idx > 48 || used[idx] {
+				return nil, fmt.Errorf("node48 index %%d of byte %%d out of range or shared", idx, b)
+			}
+			used[idx] = true
+			if n.children[idx-1].pointer == nil {
+				return nil, fmt.Errorf("node48 byte %%d maps to an empty slot", b)
+			}
+			m[byte(b)] = n.children[idx-1]
+		}
+		if len(m) != int(n.childrenLen) {
+			return nil, fmt.Errorf("node48 childrenLen %%d but %%d bytes mapped", n.childrenLen, len(m))
+		}
+	case nodeKind256:
+		n := (*node256)(r.pointer)
+		for b := 0; b < 256; b++ {
+			if n.children[b].pointer != nil {
+				m[byte(b)] = n.children[b]
+			}
+		}
+		if len(m)%%256 != int(n.childrenLen) {
+			return nil, fmt.Errorf("node256 childrenLen %%d but %%d children", n.childrenLen, len(m))
+		}
+	default:
+		return nil, fmt.Errorf("not an inner node (tag %%d)", r.tag)
+	}
+	return m, nil
+}
+
+func TestVerifReplay(t *testing.T) {
+	var ref nodeRef
+	switch vrTag {
+	case nodeKind4:
+		n := &node4{keys: vrKeys4}
+		n.childrenLen, n.prefixLen = vrLen, vrPrefix
+		for i := range n.children {
+			n.children[i] = vrRef(vrSlots[i])
+		}
+		ref = nodeRef{pointer: unsafe.Pointer(n), tag: nodeKind4}
+	case nodeKind16:
+		n := &node16{}
+		n.childrenLen, n.prefixLen = vrLen, vrPrefix
+		copy(n.keys[:], vrKeys[:16])
+		for i := range n.children {
+			n.children[i] = vrRef(vrSlots[i])
+		}
+		ref = nodeRef{pointer: unsafe.Pointer(n), tag: nodeKind16}
+	case nodeKind48:
+		n := &node48{keys: vrKeys}
+		n.childrenLen, n.prefixLen = vrLen, vrPrefix
+		for i := range n.children {
+			n.children[i] = vrRef(vrSlots[i])
+		}
+		ref = nodeRef{pointer: unsafe.Pointer(n), tag: nodeKind48}
+	case nodeKind256:
+		n := &node256{}
+		n.childrenLen, n.prefixLen = vrLen, vrPrefix
+		for i := range n.children {
+			n.children[i] = vrRef(vrSlots[i])
+		}
+		ref = nodeRef{pointer: unsafe.Pointer(n), tag: nodeKind256}
+	}
+	before, err := vrView(ref)
+	if err != nil {
+		t.Skipf("the model is not a well-formed node: %%v", err)
+	}
+	child := vrRef(vrChild)
+	switch vrOp {
+	case "findChild":
+		got := ref.findChild(vrB)
+		want, present := before[vrB]
+		if present != (got != nil) || (got != nil && *got != want) {
+			t.Fatalf("findChild(%%#x) on %%v node with %%d children: got %%v, table has (%%v, present=%%v)", vrB, vrTag, len(before), got, want, present)
+		}
+	case "addChild":
+		if _, present := before[vrB]; present || child.pointer == nil {
+			t.Skip("precondition of addChild not met by the model")
+		}
+		ref.addChild(vrB, child)
+		after, err := vrView(ref)
+		if err != nil {
+			t.Fatalf("addChild(%%#x) on %%v node with %%d children leaves a malformed node: %%v", vrB, vrTag, len(before), err)
+		}
+		before[vrB] = child
+		if len(after) != len(before) {
+			t.Fatalf("addChild(%%#x): %%d children before (plus the new one), %%d after", vrB, len(before), len(after))
+		}
+		for k, v := range before {
+			if after[k] != v {
+				t.Fatalf("addChild(%%#x) on %%v node: byte %%#x maps to %%v afterwards, expected %%v", vrB, vrTag, k, after[k], v)
+			}
+		}
+	case "deleteChild":
+		if _, present := before[vrB]; !present {
+			t.Skip("precondition of deleteChild not met by the model")
+		}
+		delete(before, vrB)
+		ref.deleteChild(vrB)
+		if vrTag == nodeKind4 && len(before) == 1 {
+			// path compression: the surviving child takes the node's place
+			for _, v := range before {
+				if ref.pointer != v.pointer || ref.tag != v.tag {
+					t.Fatalf("deleteChild(%%#x) on a node4 with two children: slot holds %%v, expected the surviving child %%v", vrB, ref, v)
+				}
+			}
+			return
+		}
+		after, err := vrView(ref)
+		if err != nil {
+			t.Fatalf("deleteChild(%%#x) on %%v node with %%d children leaves a malformed node: %%v", vrB, vrTag, len(before)+1, err)
+		}
+		if len(after) != len(before) {
+			t.Fatalf("deleteChild(%%#x): %%d children expected afterwards, %%d found", vrB, len(before), len(after))
+		}
+		for k, v := range before {
+			if after[k] != v {
+				t.Fatalf("deleteChild(%%#x) on %%v node: byte %%#x maps to %%v afterwards, expected %%v", vrB, vrTag, k, after[k], v)
+			}
+		}
+	}
+}
+`
+
+// ---------------------------------------------------------------------------
+// Model finding for replay. A refuted obligation over quantified assumptions usually comes back
+// as timeout/unknown, without a model. For REPLAY ONLY the query is weakened into a
+// quantifier-free one: integer quantifiers with constant bounds are expanded, a negated
+// universal goal is skolemised, the counting functions get their defining sums for the ground
+// rows that occur, and every assumption that still contains a quantifier is dropped. A model
+// of the weakened query need not satisfy the dropped assumptions - it is only a candidate input;
+// the replay test validates it (well-formedness check in Go) and runs the real code on it.
+
+type sx struct {
+	atom string
+	kids []*sx
+	list bool
+}
+
+func parseSx(s string) []*sx {
+	var stack [][]*sx
+	cur := []*sx{}
+	i := 0
+	for i < len(s) {
+		c := s[i]
+		switch {
+		case c == '(':
+			stack = append(stack, cur)
+			cur = []*sx{}
+			i++
+		case c == ')':
+			n := &sx{list: true, kids: cur}
+			if len(stack) == 0 {
+				return cur
+			}
+			cur = append(stack[len(stack)-1], n)
+			stack = stack[:len(stack)-1]
+			i++
+		case c == ' ' || c == '\n' || c == '\t' || c == '\r':
+			i++
+		case c == ';':
+			for i < len(s) && s[i] != '\n' {
+				i++
+			}
+		case c == '|':
+			j := i + 1
+			for j < len(s) && s[j] != '|' {
+				j++
+			}
+			cur = append(cur, &sx{atom: s[i : j+1]})
+			i = j + 1
+		case c == '"':
+			j := i + 1
+			for j < len(s) && s[j] != '"' {
+				j++
+			}
+			cur = append(cur, &sx{atom: s[i : j+1]})
+			i = j + 1
+		default:
+			j := i
+			for j < len(s) && !strings.ContainsRune("() \n\t\r", rune(s[j])) {
+				j++
+			}
+			cur = append(cur, &sx{atom: s[i:j]})
+			i = j
+		}
+	}
+	return cur
+}
+
+func (n *sx) write(b *strings.Builder) {
+	if !n.list {
+		b.WriteString(n.atom)
+		return
+	}
+	b.WriteByte('(')
+	for i, k := range n.kids {
+		if i > 0 {
+			b.WriteByte(' ')
+		}
+		k.write(b)
+	}
+	b.WriteByte(')')
+}
+
+func (n *sx) String() string {
+	var b strings.Builder
+	n.write(&b)
+	return b.String()
+}
+
+func (n *sx) head() string {
+	if n.list && len(n.kids) > 0 && !n.kids[0].list {
+		return n.kids[0].atom
+	}
+	return ""
+}
+
+func (n *sx) subst(v string, with *sx) *sx {
+	if !n.list {
+		if n.atom == v {
+			return with
+		}
+		return n
+	}
+	// do not substitute under a binder of the same name
+	if h := n.head(); (h == "forall" || h == "exists") && len(n.kids) >= 3 {
+		for _, bd := range n.kids[1].kids {
+			if bd.list && len(bd.kids) > 0 && bd.kids[0].atom == v {
+				return n
+			}
+		}
+	}
+	out := &sx{list: true, kids: make([]*sx, len(n.kids))}
+	for i, k := range n.kids {
+		out.kids[i] = k.subst(v, with)
+	}
+	return out
+}
+
+func (n *sx) hasQuant() bool {
+	if !n.list {
+		return false
+	}
+	if h := n.head(); h == "forall" || h == "exists" {
+		return true
+	}
+	for _, k := range n.kids {
+		if k.hasQuant() {
+			return true
+		}
+	}
+	return false
+}
+
+func intLit(n *sx) (int, bool) {
+	if n.list {
+		if n.head() == "-" && len(n.kids) == 2 {
+			if v, ok := intLit(n.kids[1]); ok {
+				return -v, true
+			}
+		}
+		return 0, false
+	}
+	v, err := strconv.Atoi(n.atom)
+	return v, err == nil
+}
+
+// expandBounded rewrites (forall ((x Int)) (=> (and (<= lo x) (< x hi)) body)) with literal bounds
+// (also <= x hi, and exists with 'and') into a finite conjunction / disjunction.
+func expandBounded(n *sx, budget *int) *sx {
+	if !n.list {
+		return n
+	}
+	h := n.head()
+	if (h == "forall" || h == "exists") && len(n.kids) == 3 && len(n.kids[1].kids) == 1 {
+		bd := n.kids[1].kids[0]
+		body := n.kids[2]
+		if body.head() == "!" && len(body.kids) >= 2 {
+			body = body.kids[1]
+		}
+		if bd.list && len(bd.kids) == 2 && bd.kids[1].atom == "Int" {
+			v := bd.kids[0].atom
+			var guard, rest *sx
+			if h == "forall" && body.head() == "=>" && len(body.kids) == 3 {
+				guard, rest = body.kids[1], body.kids[2]
+			} else if h == "exists" && body.head() == "and" && len(body.kids) >= 3 {
+				// (and (<= lo x) (< x hi) rest...)
+				guard = &sx{list: true, kids: []*sx{{atom: "and"}, body.kids[1], body.kids[2]}}
+				rest = &sx{list: true, kids: append([]*sx{{atom: "and"}}, body.kids[3:]...)}
+				if len(body.kids) == 3 {
+					rest = &sx{atom: "true"}
+				}
+			}
+			if guard != nil && guard.head() == "and" && len(guard.kids) >= 3 {
+				lo, hi, okLo, okHi := 0, 0, false, false
+				for _, g := range guard.kids[1:] {
+					if len(g.kids) != 3 {
+						continue
+					}
+					op := g.head()
+					if c, ok := intLit(g.kids[1]); ok && g.kids[2].atom == v {
+						if op == "<=" {
+							lo, okLo = c, true
+						} else if op == "<" {
+							lo, okLo = c+1, true
+						}
+					}
+					if c, ok := intLit(g.kids[2]); ok && g.kids[1].atom == v {
+						if op == "<" {
+							hi, okHi = c, true
+						} else if op == "<=" {
+							hi, okHi = c+1, true
+						}
+					}
+				}
+				if okLo && okHi && hi-lo <= 256 && len(guard.kids) == 3 {
+					*budget -= hi - lo
+					if *budget >= 0 {
+						op := "and"
+						if h == "exists" {
+							op = "or"
+						}
+						out := &sx{list: true, kids: []*sx{{atom: op}}}
+						if h == "forall" {
+							out.kids = append(out.kids, &sx{atom: "true"})
+						} else {
+							out.kids = append(out.kids, &sx{atom: "false"})
+						}
+						for i := lo; i < hi; i++ {
+							lit := &sx{atom: strconv.Itoa(i)}
+							if i < 0 {
+								lit = &sx{list: true, kids: []*sx{{atom: "-"}, {atom: strconv.Itoa(-i)}}}
+							}
+							out.kids = append(out.kids, expandBounded(rest.subst(v, lit), budget))
+						}
+						return out
+					}
+				}
+			}
+		}
+	}
+	out := &sx{list: true, kids: make([]*sx, len(n.kids))}
+	for i, k := range n.kids {
+		out.kids[i] = expandBounded(k, budget)
+	}
+	return out
+}
+
+// collectCnt finds ground (cntP row k) / (cntNZ row k) applications with a literal k.
+func collectCnt(n *sx, out map[string]*sx) {
+	if !n.list {
+		return
+	}
+	if h := n.head(); (h == "cntP" || h == "cntNZ") && len(n.kids) == 3 {
+		if k, ok := intLit(n.kids[2]); ok && k >= 0 && k <= 256 && !n.kids[1].hasQuant() {
+			out[n.String()] = n
+		}
+	}
+	for _, k := range n.kids {
+		collectCnt(k, out)
+	}
+}
+
+func weakenQuant(n *sx, pos bool) (*sx, bool) {
+	if !n.list || !n.hasQuant() {
+		return n, true
+	}
+	h := n.head()
+	switch h {
+	case "forall", "exists":
+		if pos {
+			return &sx{atom: "true"}, true
+		}
+		return &sx{atom: "false"}, true
+	case "and", "or":
+		out := &sx{list: true, kids: []*sx{n.kids[0]}}
+		for _, k := range n.kids[1:] {
+			w, ok := weakenQuant(k, pos)
+			if !ok {
+				return nil, false
+			}
+			out.kids = append(out.kids, w)
+		}
+		return out, true
+	case "not":
+		w, ok := weakenQuant(n.kids[1], !pos)
+		if !ok {
+			return nil, false
+		}
+		return &sx{list: true, kids: []*sx{n.kids[0], w}}, true
+	case "=>":
+		if len(n.kids) == 3 {
+			a, ok1 := weakenQuant(n.kids[1], !pos)
+			b, ok2 := weakenQuant(n.kids[2], pos)
+			if ok1 && ok2 {
+				return &sx{list: true, kids: []*sx{n.kids[0], a, b}}, true
+			}
+		}
+	}
+	return nil, false
+}
+
+func modelQuery(query string) string {
+	top := parseSx(query)
+	var b strings.Builder
+	budget := 20000
+	cnts := map[string]*sx{}
+	var asserts []*sx
+	bound := map[string]bool{}
+	for _, t := range top {
+		switch t.head() {
+		case "check-sat", "get-model", "set-option":
+			continue
+		case "assert":
+			a := expandBounded(t.kids[1], &budget)
+			// negated universal goal: skolemise
+			for a.head() == "not" && len(a.kids) == 2 && a.kids[1].head() == "forall" {
+				q := a.kids[1]
+				body := q.kids[2]
+				if body.head() == "!" {
+					body = body.kids[1]
+				}
+				for _, bd := range q.kids[1].kids {
+					name := bd.kids[0].atom
+					sk := "sk!" + strings.NewReplacer("!", "_").Replace(name)
+					if !bound[sk] {
+						bound[sk] = true
+						fmt.Fprintf(&b, "(declare-fun %s () %s)\n", sk, bd.kids[1].String())
+					}
+					body = body.subst(name, &sx{atom: sk})
+				}
+				a = expandBounded(&sx{list: true, kids: []*sx{{atom: "not"}, body}}, &budget)
+			}
+			if a.hasQuant() {
+				// weakening: a quantified subformula in positive position becomes true, in negative
+				// position false; if its polarity is unknown the whole assumption is dropped
+				w, ok := weakenQuant(a, true)
+				if !ok {
+					continue
+				}
+				a = w
+			}
+			asserts = append(asserts, a)
+			collectCnt(a, cnts)
+		default:
+			t.write(&b)
+			b.WriteByte('\n')
+		}
+	}
+	var names []string
+	for k := range cnts {
+		names = append(names, k)
+	}
+	sort.Strings(names)
+	for _, k := range names {
+		n := cnts[k]
+		cnt, _ := intLit(n.kids[2])
+		row := n.kids[1].String()
+		var sum strings.Builder
+		sum.WriteString("(+ 0 0")
+		for i := 0; i < cnt; i++ {
+			if n.head() == "cntP" {
+				fmt.Fprintf(&sum, " (ite (not (= (select %s %d) null)) 1 0)", row, i)
+			} else {
+				fmt.Fprintf(&sum, " (ite (not (= (select %s %d) 0)) 1 0)", row, i)
+			}
+		}
+		sum.WriteString(")")
+		fmt.Fprintf(&b, "(assert (= %s %s))\n", k, sum.String())
+	}
+	for _, a := range asserts {
+		b.WriteString("(assert ")
+		a.write(&b)
+		b.WriteString(")\n")
+	}
+	b.WriteString("(check-sat)\n")
+	return b.String()
+}
+
+// ---------------------------------------------------------------------------
+// Witness search for node-level obligations the solver refuted without a model (timeout /
+// unknown over quantified assumptions). It never decides anything: the violation is already
+// reported from the failed obligation. It only tries to attach a concrete failing input: an
+// injected in-package test builds pseudo-random WELL-FORMED nodes of the class the obligation is
+// about (constructed directly from a byte->child table, not with the code under test; node48
+// slots are assigned with holes), runs the real operation and compares with the naive table
+// oracle of the replay template. Bounded and seeded (VERIF_SEED); stated as such in the replay
+// file. If no input fails the VIOLATION line keeps its no-failing-input-found suffix.
+func witnessSearchNode(o *Obligation) map[string]any {
+	m := nodeFnRe.FindStringSubmatch(o.Func)
+	if m == nil {
+		return nil
+	}
+	recv, op := m[1], m[2]
+	classes := "0, 1, 2, 3"
+	switch recv {
+	case "node4":
+		classes = "0"
+	case "node16":
+		classes = "1"
+	case "node48":
+		classes = "2"
+	case "node256":
+		classes = "3"
+	}
+	seed := int64(1)
+	if v, err := strconv.ParseInt(os.Getenv("VERIF_SEED"), 10, 64); err == nil {
+		seed = v
+	}
+	i := strings.Index(nodeReplayTemplate, "func TestVerifReplay")
+	j := strings.Index(nodeReplayTemplate, "var (")
+	k := strings.Index(nodeReplayTemplate, "func vrRef")
+	// reuse the oracle (vrView) of the replay template; drop its data block and its test
+	prelude := strings.ReplaceAll(nodeReplayTemplate[:j]+nodeReplayTemplate[k:i], "%%", "%")
+	prelude = strings.Replace(prelude, "import (\n\t\"fmt\"", "import (\n\t\"fmt\"\n\t\"math/rand\"\n\t\"sort\"", 1)
+	src := prelude + fmt.Sprintf(witnessSearchTemplate, classes, op, seed)
+	rr := runReplayTest(src, o.Name)
+	rr["how"] = fmt.Sprintf("witness search (bounded, seed %d): 4000 pseudo-random well-formed nodes per class built directly from a byte->child table; the real %s is run on each and compared with a naive table oracle. The solver gave no model for this obligation", seed, op)
+	return rr
+}
+
+const witnessSearchTemplate = `
+var vrObjects = map[int]unsafe.Pointer{}
+
+// vrBuild: a well-formed node of class k holding the table tab (byte -> child).
+func vrBuild(k nodeKind, tab map[byte]nodeRef, rng *rand.Rand) nodeRef {
+	var bs []int
+	for b := range tab {
+		bs = append(bs, int(b))
+	}
+	sort.Ints(bs)
+	switch k {
+	case nodeKind4:
+		n := &node4{}
+		n.childrenLen = uint8(len(bs))
+		for i, b := range bs {
+			n.keys |= uint32(b) << (8 * i)
+			n.children[i] = tab[byte(b)]
+		}
+		return nodeRef{pointer: unsafe.Pointer(n), tag: k}
+	case nodeKind16:
+		n := &node16{}
+		n.childrenLen = uint8(len(bs))
+		for i, b := range bs {
+			n.keys[i] = byte(b)
+			n.children[i] = tab[byte(b)]
+		}
+		return nodeRef{pointer: unsafe.Pointer(n), tag: k}
+	case nodeKind48:
+		n := &node48{}
+		n.childrenLen = uint8(len(bs))
+		slots := rng.Perm(48) // holes wherever the permutation leaves them
+		for i, b := range bs {
+			n.keys[b] = uint8(slots[i]) + 1
+			n.children[slots[i]] = tab[byte(b)]
+		}
+		return nodeRef{pointer: unsafe.Pointer(n), tag: k}
+	default:
+		n := &node256{}
+		n.childrenLen = uint8(len(bs))
+		for _, b := range bs {
+			n.children[b] = tab[byte(b)]
+		}
+		return nodeRef{pointer: unsafe.Pointer(n), tag: nodeKind256}
+	}
+}
+
+func vrLeaf() nodeRef {
+	return nodeRef{pointer: unsafe.Pointer(&alphaLeafNode[int]{}), tag: nodeKindLeaf}
+}
+
+func TestVerifReplay(t *testing.T) {
+	classes := []nodeKind{%s}
+	op := %q
+	rng := rand.New(rand.NewSource(%d))
+	lo := map[nodeKind]int{nodeKind4: 1, nodeKind16: 3, nodeKind48: 12, nodeKind256: 37}
+	hi := map[nodeKind]int{nodeKind4: 4, nodeKind16: 16, nodeKind48: 48, nodeKind256: 255}
+	for trial := 0; trial < 4000; trial++ {
+		k := classes[trial%%len(classes)]
+		m := lo[k] + rng.Intn(hi[k]-lo[k]+1)
+		if trial%%7 == 0 {
+			m = hi[k] // full node: the add grows it
+		}
+		if trial%%11 == 0 {
+			m = lo[k] + 1 // around the shrink threshold
+		}
+		tab := map[byte]nodeRef{}
+		for len(tab) < m {
+			c := vrLeaf()
+			if rng.Intn(8) == 0 {
+				c = nodeRef{pointer: unsafe.Pointer(&node4{}), tag: nodeKind4}
+			}
+			tab[byte(rng.Intn(256))] = c
+		}
+		ref := vrBuild(k, tab, rng)
+		before, err := vrView(ref)
+		if err != nil || len(before) != len(tab) {
+			t.Fatalf("witness builder produced a malformed node: %%v", err)
+		}
+		desc := func() string {
+			var bs []int
+			for b := range tab {
+				bs = append(bs, int(b))
+			}
+			sort.Ints(bs)
+			s := fmt.Sprintf("%%v node with %%d children under bytes %%v", k, len(bs), bs)
+			if k == nodeKind48 {
+				n := (*node48)(ref.pointer)
+				s += fmt.Sprintf(", slot of each byte (1-based) %%v", func() (o []uint8) {
+					for _, b := range bs {
+						o = append(o, n.keys[b])
+					}
+					return
+				}())
+			}
+			return s
+		}
+		before0 := desc()
+		var b byte
+		switch op {
+		case "findChild":
+			b = byte(rng.Intn(256))
+			got := ref.findChild(b)
+			want, present := before[b]
+			if present != (got != nil) || (got != nil && *got != want) {
+				t.Fatalf("findChild(%%#x) on %%s: got %%v, the table has (%%v, present=%%v)", b, before0, got, want, present)
+			}
+		case "addChild":
+			if len(tab) >= 255 {
+				continue
+			}
+			for {
+				b = byte(rng.Intn(256))
+				if _, present := before[b]; !present {
+					break
+				}
+			}
+			child := vrLeaf()
+			ref.addChild(b, child)
+			after, err := vrView(ref)
+			if err != nil {
+				t.Fatalf("addChild(%%#x) on %%s leaves a malformed node: %%v", b, before0, err)
+			}
+			before[b] = child
+			if len(after) != len(before) {
+				t.Fatalf("addChild(%%#x) on %%s: %%d children expected afterwards, %%d found", b, before0, len(before), len(after))
+			}
+			for kb, v := range before {
+				if after[kb] != v {
+					t.Fatalf("addChild(%%#x) on %%s: byte %%#x maps to %%v afterwards, expected %%v", b, before0, kb, after[kb], v)
+				}
+			}
+		case "deleteChild":
+			var bs []int
+			for kb := range before {
+				bs = append(bs, int(kb))
+			}
+			sort.Ints(bs)
+			b = byte(bs[rng.Intn(len(bs))])
+			delete(before, b)
+			if len(before) == 0 {
+				continue
+			}
+			ref.deleteChild(b)
+			if k == nodeKind4 && len(before) == 1 {
+				for _, v := range before {
+					if ref.pointer != v.pointer || ref.tag != v.tag {
+						t.Fatalf("deleteChild(%%#x) on %%s: slot holds %%v, expected the surviving child %%v", b, before0, ref, v)
+					}
+				}
+				continue
+			}
+			after, err := vrView(ref)
+			if err != nil {
+				t.Fatalf("deleteChild(%%#x) on %%s leaves a malformed node: %%v", b, before0, err)
+			}
+			if len(after) != len(before) {
+				t.Fatalf("deleteChild(%%#x) on %%s: %%d children expected afterwards, %%d found", b, before0, len(before), len(after))
+			}
+			for kb, v := range before {
+				if after[kb] != v {
+					t.Fatalf("deleteChild(%%#x) on %%s: byte %%#x maps to %%v afterwards, expected %%v", b, before0, kb, after[kb], v)
+				}
+			}
+		}
+	}
+}
+`
